@@ -61,17 +61,17 @@ CHECKS = {
    ref="DESIGN.md §5 C08",
    note="Generated/Selection.lean (harness/translate_selection.py) ties topN / threshSel / the 2·r·c denominator to the source on every run; numpy's argsort (unstable) is modelled by the stable argsortDesc, ties compared canonically. The order of equal magnitudes is left free (numpy's argsort is not stable); the aggregation callable is a parameter whose four documented instances are compared with the model on exact inputs; sklearn solvers are parameters."),
  "C09": dict(
-   cat="proof", technique="Lean 4 invariant over all call histories of a state machine with ghost 'trained-on' state + history differential + fresh-clone prediction oracle",
+   cat="proof", technique="Lean 4 invariant over all call histories of a state machine with ghost 'trained-on' state + history differential + fresh-clone prediction oracle + translator regenerating the dispatch of SSPOC.predict, the training data and solver calls of fit and the refit block of update_sensors from the AST (clsProg = ClsProg.spec by decide; the dispatch evaluates to Sspoc.predictKind)",
    text="dispatch_consistent: after every history of fit(refit=T/F) / update_sensors(xy) / update_n_basis_modes the dispatch of predict matches what the classifier was last trained on; stale_flag_breaks_invariant shows the invariant "
         "fails on the unrepaired machine; real histories are compared with the machine after every call and predictions with sklearn.clone trained from scratch.",
    ref="DESIGN.md §5 C09",
-   note="Holds on /repo after fix commits 8968a58 (stale refit_) and d275b97 (zero sensors). The classifier, solvers and basis numerics are parameters (only what they were trained on is tracked)."),
+   note="Generated/Classification.lean (harness/translate_classification.py): cls_pipeline, cls_predict_is_model. Holds on /repo after fix commits 8968a58 (stale refit_) and d275b97 (zero sensors). The classifier, solvers and basis numerics are parameters (only what they were trained on is tracked)."),
  "C10": dict(
-   cat="other", technique="Lean 4 theorems that the checked certificates suffice (offset identity; KKT => group-lasso optimum) + numeric certification of scikit-learn's real output",
+   cat="other", technique="Lean 4 theorems that the checked certificates suffice (offset identity; KKT => group-lasso optimum) + numeric certification of scikit-learn's real output + translator regenerating the dispatch of SSPOC.predict, the training data and solver calls of fit and the refit block of update_sensors from the AST (clsProg = ClsProg.spec by decide; the dispatch evaluates to Sspoc.predictKind)",
    text="PARTIAL by nature: the minimisers are computed by scikit-learn (OrthogonalMatchingPursuit, MultiTaskLasso), which no executable model reproduces. Lean proves binary_offset(_spread) and group_lasso_kkt_sufficient; "
         "every real output is certified numerically (spread of Psi*s - w, support size, shapes, duality gap for alpha = l1_penalty, perturbation test, alpha read back from the solver object).",
    ref="DESIGN.md §5 C10",
-   note="Solver correctness is trusted; certificates use 20x the solver's own tolerance; runs where MultiTaskLasso hits max_iter are skipped and counted."),
+   note="Generated/Classification.lean (harness/translate_classification.py): cls_pipeline, cls_predict_is_model. Solver correctness is trusted; certificates use 20x the solver's own tolerance; runs where MultiTaskLasso hits max_iter are skipped and counted."),
  "C11": dict(
    cat="proof", technique="Lean 4 theorems (column-prefix law, bound check, orthonormal => transpose is a left inverse and rank-<=k data reproduced, Gram-inverse left inverse, RP modes in the span of the examples) + exact/numeric differential on the real bases + translator regenerating what each basis stores at fit, what matrix_representation returns and how each inverse is formed (basesProg = BasesProg.spec by decide; the representation evaluates to takeCols)",
    text="takeCols_takeCols/_get/_shape, rep_rejects_gt, identity_exact, orthonormal_left_inverse, rank_k_reproduced, gram_pinv_left_inverse, rp_modes_in_span; real Identity/SVD/RandomProjection/Custom bases are checked bitwise for slicing, "
